@@ -237,7 +237,17 @@ def run_case(case):
             for p in ("\\abs.txt", "c:\\win.txt", "\\etc/passwd", "sub/\\lead"):
                 with open(os.path.join(root, p), "wb") as f:
                     f.write(p.encode())
-            style = r.choice(["abs-file", "abs-dir", "rel-dir", "rel-file", "dotdot-rel", "abs-pathobj", "dot-dir", "bs-file", "bs-drive", "bs-dir", "bs-pathobj", "bs-shielded", "undecodable-name"])
+            # directories whose names end in '.': behind the prefix that is stripped from them pathlib drops a './', and what that shielded comes to the front (fifth hunt)
+            for dn in ("c:.", "..\\.", "\\."):
+                os.makedirs(os.path.join(root, dn))
+                with open(os.path.join(root, dn, "\\evil.txt"), "wb") as f:
+                    f.write(b"evil")
+                with open(os.path.join(root, dn, "plain.txt"), "wb") as f:
+                    f.write(b"plain")
+            with open(os.path.join(root, "up.txt"), "wb") as f:
+                f.write(b"up")
+            style = r.choice(["abs-file", "abs-dir", "rel-dir", "rel-file", "dotdot-rel", "abs-pathobj", "dot-dir", "bs-file", "bs-drive", "bs-dir", "bs-pathobj", "bs-shielded", "undecodable-name",
+                              "dotted-dir-file", "dotted-dir-file", "dotted-dir-up", "dotted-dir-tree"])
             cwd = os.getcwd()
             try:
                 os.chdir(os.path.join(d, "w"))
@@ -273,6 +283,20 @@ def run_case(case):
                     elif style == "bs-pathobj":
                         os.chdir(root)
                         z.write(pathlib.Path("\\abs.txt"))
+                    elif style in ("dotted-dir-file", "dotted-dir-up", "dotted-dir-tree"):
+                        os.chdir(root)
+                        dn = r.choice(["c:.", "..\\.", "\\."])
+                        z.write("f.txt")
+                        try:
+                            if style == "dotted-dir-file":
+                                z.write(dn + "/\\evil.txt")
+                            elif style == "dotted-dir-up":
+                                z.write(dn + "/../up.txt")
+                            else:
+                                z.writeall(dn)
+                        except ValueError:
+                            # refusing such a source is an answer too: nothing absolute is stored then
+                            obs["dotted_sources_refused"] = obs.get("dotted_sources_refused", 0) + 1
                     elif style == "undecodable-name":
                         # a file whose name is not valid UTF-8 comes as a str with a lone surrogate: it cannot be stored.
                         # The call must say so; the session and its other members must survive
@@ -300,7 +324,7 @@ def run_case(case):
                 if not gn:
                     viol.append({"key": "fswrite/empty/%s" % style, "what": "no member stored"})
                 for nm in gn:
-                    if nm.startswith(("/", "\\")) or re.match(r"^[a-zA-Z]:", nm):
+                    if nm.startswith(("/", "\\")) or re.match(r"^[a-zA-Z]:", nm) or nm == ".." or nm.startswith("../"):
                         viol.append({"key": "fswrite/absolute-name-stored/%s" % style, "what": "write/writeall (%s) stored absolute name %r" % (style, nm)})
                 obs["fs_names_checked"] = len(gn)
         cell = "fswrite|" + style
